@@ -1509,3 +1509,454 @@ Proof.
   pose proof (patch_transaction_refines d tag ps) as H. destruct (d_tx d tag (map UPatch ps) false) as [d' rs].
   intros HI He Hl Hc Hf <-. exact (H HI He Hl Hc Hf).
 Qed.
+
+(* ====================================================================================================================
+   Remote operations: the structural part of the invariant (well-formed, live root, creation timestamps pairwise
+   distinct) is kept by every remote operation whose identifier is new to the tree — which operation identifiers,
+   unique per client and sequence number, guarantee for an operation delivered once.
+   ==================================================================================================================== *)
+
+(* the table lookup replaces exactly one node *)
+Lemma on_list_split {K} onx (m m' : list (K * jt)) : on_list onx m = Some m' ->
+  exists m1 k x x' m2, m = m1 ++ (k, x) :: m2 /\ m' = m1 ++ (k, x') :: m2 /\ onx x = Some x'.
+Proof.
+  revert m'. induction m as [|[k x] r IH]; intros m'; cbn [on_list]; [discriminate|].
+  destruct (onx x) as [x'|] eqn:E.
+  - intros [= <-]. exists [], k, x, x', r. auto.
+  - destruct (on_list onx r) as [r'|]; [|discriminate]. intros [= <-].
+    destruct (IH r' eq_refl) as [m1 [k0 [x0 [x0' [m2 [E1 [E2 E3]]]]]]]. exists ((k, x) :: m1), k0, x0, x0', m2.
+    rewrite E1, E2. auto.
+Qed.
+
+Theorem on_node_nodes p f : forall j j', on_node j p f = Some j' ->
+  exists tg x' rest, f tg = Some x' /\ jc tg = p /\
+    Permutation (nodes j) (nodes tg ++ rest) /\ Permutation (nodes j') (nodes x' ++ rest).
+Proof.
+  induction j as [c d v|c d m s IH|c d l s IH] using jt_ind'; intros j'; rewrite on_node_unfold; cbn [jc].
+  - destruct (ts_eqb c p) eqn:E; [|discriminate]. apply ts_eqb_eq in E. intros H. exists (JE c d v), j', []. rewrite !app_nil_r. auto.
+  - destruct (ts_eqb c p) eqn:E.
+    + apply ts_eqb_eq in E. intros H. exists (JO c d m s), j', []. rewrite !app_nil_r. auto.
+    + destruct (on_list (fun x => on_node x p f) m) as [m'|] eqn:El; [|discriminate]. intros [= <-].
+      destruct (on_list_split _ _ _ El) as [m1 [k [x [x' [m2 [E1 [E2 E3]]]]]]].
+      assert (Hx : forall y', on_node x p f = Some y' -> exists tg x0 rest, f tg = Some x0 /\ jc tg = p /\
+                     Permutation (nodes x) (nodes tg ++ rest) /\ Permutation (nodes y') (nodes x0 ++ rest)).
+      { rewrite Forall_forall in IH. apply (IH (k, x)). rewrite E1. apply in_or_app. right. left. reflexivity. }
+      destruct (Hx x' E3) as [tg [x0 [r0 [Hf [Hp [P1 P2]]]]]].
+      exists tg, x0, ((c, d) :: nodes_of m1 ++ r0 ++ nodes_of m2). split; [exact Hf|]. split; [exact Hp|].
+      rewrite !nodes_obj, E1, E2, !nodes_of_app, !nodes_of_cons. cbn [snd]. split; apply perm_ctx; assumption.
+  - destruct (ts_eqb c p) eqn:E.
+    + apply ts_eqb_eq in E. intros H. exists (JA c d l s), j', []. rewrite !app_nil_r. auto.
+    + destruct (on_list (fun x => on_node x p f) l) as [l'|] eqn:El; [|discriminate]. intros [= <-].
+      destruct (on_list_split _ _ _ El) as [l1 [k [x [x' [l2 [E1 [E2 E3]]]]]]].
+      assert (Hx : forall y', on_node x p f = Some y' -> exists tg x0 rest, f tg = Some x0 /\ jc tg = p /\
+                     Permutation (nodes x) (nodes tg ++ rest) /\ Permutation (nodes y') (nodes x0 ++ rest)).
+      { rewrite Forall_forall in IH. apply (IH (k, x)). rewrite E1. apply in_or_app. right. left. reflexivity. }
+      destruct (Hx x' E3) as [tg [x0 [r0 [Hf [Hp [P1 P2]]]]]].
+      exists tg, x0, ((c, d) :: nodes_of l1 ++ r0 ++ nodes_of l2). split; [exact Hf|]. split; [exact Hp|].
+      rewrite !nodes_arr, E1, E2, !nodes_of_app, !nodes_of_cons. cbn [snd]. split; apply perm_ctx; assumption.
+Qed.
+
+(* well-formedness through the table lookup: the replaced node keeps its deletion mark, so no size changes above it *)
+Lemma Wm_app m1 m2 : Wm (m1 ++ m2) <-> Wm m1 /\ Wm m2.
+Proof.
+  induction m1 as [|[k c] m IH]; cbn [app Wm fold_right]; [tauto|]. change (fold_right _ True (m ++ m2)) with (Wm (m ++ m2)).
+  change (fold_right _ True m) with (Wm m). rewrite IH. tauto.
+Qed.
+Lemma Wl_app l1 l2 : Wl (l1 ++ l2) <-> Wl l1 /\ Wl l2.
+Proof.
+  induction l1 as [|[k c] m IH]; cbn [app Wl fold_right]; [tauto|]. change (fold_right _ True (m ++ l2)) with (Wl (m ++ l2)).
+  change (fold_right _ True m) with (Wl m). rewrite IH. tauto.
+Qed.
+Lemma amem_len_replace l1 o x x' l2 : jtomb x' = jtomb x ->
+  length (amem (l1 ++ (o, x') :: l2)) = length (amem (l1 ++ (o, x) :: l2)).
+Proof.
+  intros H. rewrite !amem_app, !app_length. f_equal. unfold amem. cbn [flat_map]. rewrite H. destruct (jtomb x); reflexivity.
+Qed.
+
+Theorem on_node_wft p f : (forall tg x', wft tg -> f tg = Some x' -> wft x' /\ jtomb x' = jtomb tg) ->
+  forall j j', wft j -> on_node j p f = Some j' -> wft j' /\ jtomb j' = jtomb j.
+Proof.
+  intros Hf. induction j as [c d v|c d m s IH|c d l s IH] using jt_ind'; intros j' Hw; rewrite on_node_unfold; cbn [jc].
+  - destruct (ts_eqb c p); [apply Hf; exact Hw|discriminate].
+  - destruct (ts_eqb c p); [apply Hf; exact Hw|].
+    destruct (on_list (fun x => on_node x p f) m) as [m'|] eqn:El; [|discriminate]. intros [= <-].
+    destruct (on_list_split _ _ _ El) as [m1 [k [x [x' [m2 [E1 [E2 E3]]]]]]]. destruct Hw as [Hnd Hch]. split; [|reflexivity].
+    subst m m'. apply Wm_app in Hch. destruct Hch as [H1 [Hx H2]].
+    rewrite Forall_forall in IH. destruct (IH (k, x) ltac:(apply in_or_app; right; left; reflexivity) x' Hx E3) as [Wx' _].
+    split.
+    + rewrite map_app in *. cbn [map fst] in *. exact Hnd.
+    + apply Wm_app. split; [exact H1|split; [exact Wx'|exact H2]].
+  - destruct (ts_eqb c p); [apply Hf; exact Hw|].
+    destruct (on_list (fun x => on_node x p f) l) as [l'|] eqn:El; [|discriminate]. intros [= <-].
+    destruct (on_list_split _ _ _ El) as [l1 [k [x [x' [l2 [E1 [E2 E3]]]]]]]. destruct Hw as [Hs Hch]. split; [|reflexivity].
+    subst l l'. apply Wl_app in Hch. destruct Hch as [H1 [Hx H2]].
+    rewrite Forall_forall in IH. destruct (IH (k, x) ltac:(apply in_or_app; right; left; reflexivity) x' Hx E3) as [Wx' Tx'].
+    split.
+    + rewrite (amem_len_replace l1 k x x' l2 Tx'). exact Hs.
+    + apply Wl_app. split; [exact H1|split; [exact Wx'|exact H2]].
+Qed.
+
+(* ---------- what the five remote operations leave at the container they address: well-formedness ---------- *)
+Lemma Wm_snoc m k ch : Wm m -> wft ch -> Wm (m ++ [(k, ch)]).
+Proof. intros H1 H2. apply Wm_app. split; [exact H1|split; [exact H2|exact I]]. Qed.
+
+Lemma put_remote_wft tg k child x' : wft tg -> wft child -> obj_put tg k child = Some x' -> wft x' /\ jtomb x' = jtomb tg.
+Proof.
+  intros Hw Wc. destruct tg as [|c d m s|]; try discriminate. destruct Hw as [Hk Hm]. cbn [obj_put].
+  destruct (alookup str_eqb k m) as [old|] eqn:E.
+  - destruct (ts_lt (jtime old) (jtime child)); intros [= <-]; (split; [|reflexivity]).
+    + split; [apply aset_nodup, Hk|apply Wm_aset; assumption].
+    + split; assumption.
+  - intros [= <-]. split; [|reflexivity]. split.
+    + rewrite map_app. cbn [map fst]. apply nodup_snoc''; [exact Hk|apply alookup_none_notin, E].
+    + apply Wm_snoc; assumption.
+Qed.
+
+Lemma remove_remote_wft tg k t x' : wft tg -> obj_remove_remote tg k t = Some x' -> wft x' /\ jtomb x' = jtomb tg.
+Proof.
+  intros Hw. destruct tg as [|c d m s|]; try discriminate. destruct Hw as [Hk Hm]. cbn [obj_remove_remote].
+  destruct (alookup str_eqb k m) as [old|] eqn:E; [|discriminate].
+  destruct (ts_lt (jtime old) t); intros [= <-]; (split; [|reflexivity]).
+  - split; [apply aset_nodup, Hk|apply Wm_aset; [exact Hm|apply wft_set_d; exact (wft_obj_child _ _ _ Hm E)]].
+  - split; assumption.
+Qed.
+
+(* remote insertion is one pass over the stored list as well *)
+Lemma ains_many_ledit t : forall ns l, ledit t l ns (ains_many l ns).
+Proof.
+  induction ns as [|n ns IH]; intros l; cbn [ains_many]; [apply ledit_refl|].
+  assert (G : forall l, exists a b, askip_gt l (jtime n) = (a, b) /\ l = a ++ b).
+  { clear. induction l as [|x xs IHl]; cbn [askip_gt]; [exists [], []; auto|].
+    destruct (ts_gt (fst x) (jtime n)); [|exists [], (x :: xs); auto].
+    destruct IHl as [a [b [E1 E2]]]. rewrite E1. exists (x :: a), b. rewrite E2. auto. }
+  destruct (G l) as [a [b [E1 E2]]]. rewrite E1, E2. clear E1 E2 G.
+  induction a as [|x a IHa]; cbn [app]; [constructor; apply IH|constructor; exact IHa].
+Qed.
+Lemma ains_at_ledit t ns : forall l target l', ains_at l target ns = Some l' -> ledit t l ns l'.
+Proof.
+  induction l as [|x l IH]; intros target l'; cbn [ains_at]; [discriminate|].
+  destruct (ts_eqb (fst x) target).
+  - intros [= <-]. constructor. apply ains_many_ledit.
+  - destruct (ains_at l target ns) as [l0|] eqn:E; [|discriminate]. intros [= <-]. constructor. eapply IH; eauto.
+Qed.
+
+
+Lemma amem_len_app a b : length (amem (a ++ b)) = (length (amem a) + length (amem b))%nat.
+Proof. rewrite amem_app, app_length. reflexivity. Qed.
+Lemma amem_len_cons_live o n l : jtomb n = false -> length (amem ((o, n) :: l)) = S (length (amem l)).
+Proof. intros H. unfold amem. cbn [flat_map]. rewrite H. reflexivity. Qed.
+
+Lemma ains_many_len : forall ns l, Forall (fun n => jtomb n = false) ns ->
+  length (amem (ains_many l ns)) = (length (amem l) + length ns)%nat.
+Proof.
+  induction ns as [|n ns IH]; intros l Hn; cbn [ains_many length]; [lia|]. inversion Hn as [|? ? H1 H2]; subst.
+  assert (G : exists a b, askip_gt l (jtime n) = (a, b) /\ l = a ++ b).
+  { clear. induction l as [|x xs IHl]; cbn [askip_gt]; [exists [], []; auto|].
+    destruct (ts_gt (fst x) (jtime n)); [|exists [], (x :: xs); auto].
+    destruct IHl as [a [b [E1 E2]]]. rewrite E1. exists (x :: a), b. rewrite E2. auto. }
+  destruct G as [a [b [E1 E2]]]. rewrite E1, E2, !amem_len_app, (amem_len_cons_live _ _ _ H1), (IH b H2). lia.
+Qed.
+Lemma ains_at_len ns : Forall (fun n => jtomb n = false) ns -> forall l target l', ains_at l target ns = Some l' ->
+  length (amem l') = (length (amem l) + length ns)%nat.
+Proof.
+  intros Hn. induction l as [|x l IH]; intros target l'; cbn [ains_at]; [discriminate|].
+  change (x :: l) with ([x] ++ l). destruct (ts_eqb (fst x) target).
+  - intros [= <-]. change (x :: ains_many l ns) with ([x] ++ ains_many l ns). rewrite !amem_len_app, (ains_many_len ns l Hn). lia.
+  - destruct (ains_at l target ns) as [l0|] eqn:E; [|discriminate]. intros [= <-]. change (x :: l0) with ([x] ++ l0).
+    rewrite !amem_len_app, (IH target l0 E). lia.
+Qed.
+
+(* a node addressed by its order timestamp *)
+Lemma afind_split l tg x : afind l tg = Some x ->
+  exists l1 o l2, l = l1 ++ (o, x) :: l2 /\ forall f, aupd_node l tg f = l1 ++ (o, f x) :: l2.
+Proof.
+  unfold afind. induction l as [|[o y] l IH]; cbn [find]; [discriminate|]. cbn [fst]. destruct (ts_eqb o tg) eqn:E.
+  - cbn. intros [= ->]. exists [], o, l. split; [reflexivity|]. intros f. cbn [aupd_node fst snd]. rewrite E. reflexivity.
+  - intros H. destruct (IH H) as [l1 [o1 [l2 [E1 E2]]]]. exists ((o, y) :: l1), o1, l2. split; [rewrite E1; reflexivity|].
+    intros f. cbn [aupd_node fst]. rewrite E, E2. reflexivity.
+Qed.
+
+Lemma adel_remote_wft t : forall targets l sz i l' sz',
+  sz = Z.of_nat (length (amem l)) -> Wl l -> adel_remote l sz targets t i = (l', sz') ->
+  sz' = Z.of_nat (length (amem l')) /\ Wl l' /\ cs_of l' = cs_of l /\
+  Forall (fun n => In n (nodes_of l) \/ exists c k, n = (c, Some (ts_at t k)) /\ In c (cs_of l)) (nodes_of l').
+Proof.
+  induction targets as [|tg tgs IH]; intros l sz i l' sz' Hs Hw; cbn [adel_remote].
+  - intros [= <- <-]. split; [exact Hs|]. split; [exact Hw|]. split; [reflexivity|]. apply Forall_forall. auto.
+  - destruct (afind l tg) as [x|] eqn:Ef; [|apply IH; assumption].
+    destruct (afind_split _ _ _ Ef) as [l1 [o [l2 [E1 E2]]]].
+    assert (Step : forall sz1, sz1 = Z.of_nat (length (amem (aupd_node l tg (fun x0 => set_d x0 (ts_at t i))))) ->
+              adel_remote (aupd_node l tg (fun x0 => set_d x0 (ts_at t i))) sz1 tgs t (i + 1) = (l', sz') ->
+              sz' = Z.of_nat (length (amem l')) /\ Wl l' /\ cs_of l' = cs_of l /\
+              Forall (fun n => In n (nodes_of l) \/ exists c k, n = (c, Some (ts_at t k)) /\ In c (cs_of l)) (nodes_of l')).
+    { intros sz1 Hs1 H. rewrite E2 in *.
+      assert (Hw1 : Wl (l1 ++ (o, set_d x (ts_at t i)) :: l2)).
+      { rewrite E1 in Hw. apply Wl_app in Hw. destruct Hw as [W1 [Wx W2]]. apply Wl_app. split; [exact W1|split; [apply wft_set_d, Wx|exact W2]]. }
+      destruct (IH _ _ _ _ _ Hs1 Hw1 H) as [K1 [K2 [K3 K4]]]. split; [exact K1|]. split; [exact K2|].
+      assert (Ecs : cs_of (l1 ++ (o, set_d x (ts_at t i)) :: l2) = cs_of l).
+      { rewrite E1. unfold cs_of. rewrite !flat_map_app. cbn [flat_map snd]. rewrite all_cs_set_d. reflexivity. }
+      split; [rewrite K3; exact Ecs|]. eapply Forall_impl; [|exact K4]. intros n [Hn|[c [k [-> Hc]]]].
+      - rewrite nodes_of_app, nodes_of_cons in Hn. cbn [snd] in Hn. rewrite nodes_set_d in Hn.
+        apply in_app_or in Hn. destruct Hn as [Hn|[Hn|Hn]].
+        + left. rewrite E1, nodes_of_app. apply in_or_app. left. exact Hn.
+        + right. exists (jc x), i. split; [symmetry; exact Hn|]. rewrite E1. unfold cs_of. rewrite flat_map_app. apply in_or_app. right.
+          cbn [flat_map snd]. apply in_or_app. left. apply jc_in_all_cs.
+        + apply in_app_or in Hn. left. rewrite E1, nodes_of_app, nodes_of_cons. cbn [snd]. apply in_or_app. right. apply in_or_app.
+          destruct Hn as [Hn|Hn]; [left; rewrite (nodes_head x); right; exact Hn|right; exact Hn].
+      - right. exists c, k. split; [reflexivity|]. rewrite <- Ecs. exact Hc. }
+    assert (Lx : length (amem (l1 ++ (o, set_d x (ts_at t i)) :: l2)) = (length (amem l) - (if jtomb x then 0 else 1))%nat).
+    { rewrite E1, !amem_len_app. change ((o, set_d x (ts_at t i)) :: l2) with ([(o, set_d x (ts_at t i))] ++ l2).
+      change ((o, x) :: l2) with ([(o, x)] ++ l2). rewrite !amem_len_app. unfold amem at 2 5. cbn [flat_map]. rewrite set_d_tomb.
+      destruct (jtomb x); cbn [app length]; lia. }
+    destruct (negb (jtomb x)) eqn:Tx.
+    + apply Step. rewrite E2, Lx. apply negb_true_iff in Tx. rewrite Tx.
+      assert (0 < length (amem l))%nat.
+      { rewrite E1, amem_len_app. change ((o, x) :: l2) with ([(o, x)] ++ l2). rewrite amem_len_app. unfold amem at 2. cbn [flat_map]. rewrite Tx. cbn. lia. }
+      lia.
+    + apply negb_false_iff in Tx. destruct (ts_lt (jtime x) (ts_at t i)); [|apply IH; assumption].
+      apply Step. rewrite E2, Lx, Tx. lia.
+Qed.
+
+(* the trees an update operation creates: one per (target, value) pair, used or not *)
+Fixpoint upd_created (t : ts) (targets : list ts) (vs : list val) (i : N) : list jt :=
+  match targets, vs with
+  | _ :: tgs, v :: vs' => let '(n, i1) := create t v i in n :: upd_created t tgs vs' i1
+  | _, _ => []
+  end.
+Lemma upd_created_many t : forall targets vs i,
+  upd_created t targets vs i = fst (create_many t (firstn (length targets) vs) i).
+Proof.
+  induction targets as [|tg tgs IH]; intros vs i; [reflexivity|]. destruct vs as [|v vs']; [reflexivity|].
+  cbn [upd_created length firstn create_many]. destruct (create t v i) as [n i1]. rewrite IH.
+  destruct (create_many t (firstn (length tgs) vs') i1). reflexivity.
+Qed.
+
+Lemma perm_move_tail {A} (a x b n e : list A) : Permutation ((a ++ x ++ b) ++ n ++ e) (((a ++ n ++ b) ++ e) ++ x).
+Proof.
+  rewrite <- !app_assoc. apply Permutation_app_head.
+  (* x ++ b ++ n ++ e  ~  n ++ b ++ e ++ x *)
+  eapply Permutation_trans; [apply Permutation_app_comm|]. rewrite <- !app_assoc.
+  (* b ++ n ++ e ++ x ~ n ++ b ++ e ++ x *)
+  apply Permutation_app_swap_app.
+Qed.
+Lemma perm_drop_tail {A} (l n e : list A) : Permutation (l ++ n ++ e) ((l ++ e) ++ n).
+Proof. rewrite <- app_assoc. apply Permutation_app_head, Permutation_app_comm. Qed.
+
+Lemma aupd_remote_spec t : forall targets vs l i,
+  Wl l -> Forall canon vs ->
+  let l' := aupd_remote l targets vs t i in
+  length (amem l') = length (amem l) /\ Wl l' /\
+  exists dropped, Permutation (cs_of l ++ flat_map all_cs (upd_created t targets vs i)) (cs_of l' ++ dropped).
+Proof.
+  induction targets as [|tg tgs IH]; intros vs l i Hw Hc; cbn [aupd_remote upd_created].
+  - cbv zeta. split; [reflexivity|]. split; [exact Hw|]. exists []. reflexivity.
+  - destruct vs as [|v vs']; [cbv zeta; split; [reflexivity|]; split; [exact Hw|]; exists []; reflexivity|].
+    inversion Hc as [|? ? Cv Cvs]; subst.
+    pose proof (create_wft t v Cv i) as Wn. pose proof (create_not_tomb t v i) as Tn.
+    destruct (create t v i) as [n i1]. cbn [fst] in Wn, Tn. cbn [flat_map].
+    assert (Skip : let l' := aupd_remote l tgs vs' t i1 in
+              length (amem l') = length (amem l) /\ Wl l' /\
+              exists dropped, Permutation (cs_of l ++ all_cs n ++ flat_map all_cs (upd_created t tgs vs' i1)) (cs_of l' ++ dropped)).
+    { destruct (IH vs' l i1 Hw Cvs) as [K1 [K2 [dr P]]]. cbv zeta. split; [exact K1|]. split; [exact K2|].
+      exists (dr ++ all_cs n). eapply Permutation_trans; [apply perm_drop_tail|]. rewrite (app_assoc _ dr (all_cs n)). apply Permutation_app_tail. exact P. }
+    destruct (afind l tg) as [x|] eqn:Ef; [|exact Skip].
+    destruct (negb (jtomb x) && ts_lt (jtime x) (jc n)) eqn:Eg; [|exact Skip].
+    apply andb_true_iff in Eg. destruct Eg as [Tx _]. apply negb_true_iff in Tx.
+    destruct (afind_split _ _ _ Ef) as [l1 [o [l2 [E1 E2]]]]. rewrite E2.
+    assert (Hw1 : Wl (l1 ++ (o, n) :: l2)).
+    { rewrite E1 in Hw. apply Wl_app in Hw. destruct Hw as [W1 [_ W2]]. apply Wl_app. split; [exact W1|split; [exact Wn|exact W2]]. }
+    destruct (IH vs' _ i1 Hw1 Cvs) as [K1 [K2 [dr P]]]. cbv zeta. split; [|split; [exact K2|]].
+    + rewrite K1, E1. apply amem_len_replace. rewrite Tn, Tx. reflexivity.
+    + exists (dr ++ all_cs x). rewrite E1. unfold cs_of at 1. rewrite flat_map_app. cbn [flat_map snd].
+      eapply Permutation_trans; [apply perm_move_tail|]. rewrite (app_assoc _ dr (all_cs x)). apply Permutation_app_tail.
+      unfold cs_of in P at 1. rewrite flat_map_app in P. cbn [flat_map snd] in P. exact P.
+Qed.
+
+(* ---------- the structural invariant under remote operations ---------- *)
+Definition SInv (s : jt) : Prop := wft s /\ NoDup (all_cs s).
+(* no node of the tree was created by the operation stamped t: the operation is new to this replica *)
+Definition new_to (t : ts) (cs : list ts) : Prop := forall y k, In y cs -> y <> ts_at t k.
+
+Lemma cs_step' t c (old_cs new_cs extra dropped : list ts) :
+  NoDup (c :: old_cs) -> new_to t (c :: old_cs) ->
+  NoDup extra -> (forall y, In y extra -> exists k, y = ts_at t k) ->
+  Permutation (old_cs ++ extra) (new_cs ++ dropped) ->
+  NoDup (c :: new_cs) /\ (forall y, In y (c :: new_cs) -> In y (c :: old_cs) \/ exists k, y = ts_at t k).
+Proof.
+  intros Hnd Hold Hex Hnew P. inversion Hnd as [|? ? Hc Ho]; subst.
+  assert (Hsub : forall y, In y new_cs -> In y old_cs \/ In y extra).
+  { intros y Hy. apply in_app_or. apply (Permutation_in _ (Permutation_sym P)). apply in_or_app. left. exact Hy. }
+  assert (N1 : NoDup (old_cs ++ extra)).
+  { apply NoDup_app_intro; [exact Ho|exact Hex|]. intros y Hy He. destruct (Hnew y He) as [k E].
+    exact (Hold y k (or_intror Hy) E). }
+  pose proof (Permutation_NoDup P N1) as N2. apply NoDup_app_inv in N2. destruct N2 as [N2 _]. split.
+  - constructor; [|exact N2]. intros Hin. destruct (Hsub c Hin) as [H|H]; [exact (Hc H)|].
+    destruct (Hnew c H) as [k E]. exact (Hold c k (or_introl eq_refl) E).
+  - intros y [<-|Hy]; [left; left; reflexivity|]. destruct (Hsub y Hy) as [H|H]; [left; right; exact H|right; exact (Hnew y H)].
+Qed.
+
+Definition cs_ok (t : ts) (tg x' : jt) : Prop :=
+  NoDup (all_cs x') /\ (forall y, In y (all_cs x') -> In y (all_cs tg) \/ exists k, y = ts_at t k).
+
+Lemma cs_ok_refl t tg : NoDup (all_cs tg) -> cs_ok t tg tg.
+Proof. intros H. split; [exact H|auto]. Qed.
+
+Lemma created_cs_new t v i y : In y (all_cs (fst (create t v i))) -> exists k, y = ts_at t k.
+Proof. intros H. exact (newnode_cs t _ y (create_clean t v i) H). Qed.
+
+Lemma put_remote_cs t tg k v x' : NoDup (all_cs tg) -> new_to t (all_cs tg) ->
+  obj_put tg k (fst (create t v 0)) = Some x' -> cs_ok t tg x'.
+Proof.
+  intros Hnd Hnew. destruct tg as [|c d m s|]; try discriminate. set (child := fst (create t v 0)).
+  pose proof (create_ids_distinct t v 0) as Nch. fold child in Nch. rewrite all_cs_obj in Hnd, Hnew. cbn [obj_put].
+  destruct (alookup str_eqb k m) as [old|] eqn:E.
+  - destruct (ts_lt (jtime old) (jtime child)); intros [= <-]; [|apply cs_ok_refl; rewrite all_cs_obj; exact Hnd].
+    destruct (alookup_split _ _ _ E) as [m1 [m2 [E1 E2]]]. unfold cs_ok. rewrite !all_cs_obj.
+    apply (cs_step' t c (cs_of m) _ (all_cs child) (all_cs old) Hnd Hnew Nch (fun y => created_cs_new t v 0 y)).
+    rewrite (E2 child), E1. unfold cs_of. rewrite !flat_map_app. cbn [flat_map snd]. rewrite <- !app_assoc.
+    apply Permutation_app_head. eapply Permutation_trans; [apply Permutation_app_comm|]. rewrite <- app_assoc.
+    apply Permutation_app_swap_app.
+  - intros [= <-]. unfold cs_ok. rewrite !all_cs_obj.
+    apply (cs_step' t c (cs_of m) _ (all_cs child) [] Hnd Hnew Nch (fun y => created_cs_new t v 0 y)).
+    unfold cs_of. rewrite flat_map_app. cbn [flat_map snd]. rewrite !app_nil_r. reflexivity.
+Qed.
+
+Lemma remove_remote_cs t tg k d0 x' : NoDup (all_cs tg) -> obj_remove_remote tg k d0 = Some x' -> cs_ok t tg x'.
+Proof.
+  intros Hnd. destruct tg as [|c d m s|]; try discriminate. cbn [obj_remove_remote].
+  destruct (alookup str_eqb k m) as [old|] eqn:E; [|discriminate].
+  destruct (ts_lt (jtime old) d0); intros [= <-]; [|apply cs_ok_refl; exact Hnd].
+  destruct (alookup_split _ _ _ E) as [m1 [m2 [E1 E2]]].
+  assert (Ecs : all_cs (JO c d (aset str_eqb k (set_d old d0) m) (if jtomb old then s else (s - 1)%Z)) = all_cs (JO c d m s)).
+  { rewrite !all_cs_obj, E2, E1. unfold cs_of. rewrite !flat_map_app. cbn [flat_map snd]. rewrite all_cs_set_d. reflexivity. }
+  unfold cs_ok. rewrite Ecs. split; [exact Hnd|auto].
+Qed.
+
+Lemma created_many_cs_new t vs i y : In y (flat_map all_cs (fst (create_many t vs i))) -> exists k, y = ts_at t k.
+Proof. destruct (create_many_ids t vs i) as [n E]. rewrite E. intros H. apply in_map_iff in H. destruct H as [k [<- _]]. eauto. Qed.
+Lemma created_many_cs_nodup t vs i : NoDup (flat_map all_cs (fst (create_many t vs i))).
+Proof. destruct (create_many_ids t vs i) as [n E]. rewrite E. apply map_ts_at_nodup, nrange_nodup. Qed.
+
+Lemma array_remote_cs t c d l sz l' sz' extra dropped :
+  NoDup (all_cs (JA c d l sz)) -> new_to t (all_cs (JA c d l sz)) ->
+  NoDup extra -> (forall y, In y extra -> exists k, y = ts_at t k) ->
+  Permutation (cs_of l ++ extra) (cs_of l' ++ dropped) -> cs_ok t (JA c d l sz) (JA c d l' sz').
+Proof. intros Hnd Hnew He Hn P. unfold cs_ok. rewrite !all_cs_arr in *. exact (cs_step' t c _ _ extra dropped Hnd Hnew He Hn P). Qed.
+
+Theorem on_node_SInv t p f s s' :
+  SInv s -> new_to t (all_cs s) -> on_node s p f = Some s' ->
+  (forall tg x', wft tg -> f tg = Some x' -> wft x' /\ jtomb x' = jtomb tg) ->
+  (forall tg x', NoDup (all_cs tg) -> new_to t (all_cs tg) -> f tg = Some x' -> cs_ok t tg x') ->
+  SInv s' /\ jtomb s' = jtomb s.
+Proof.
+  intros [Hw Hnd] Hnew Hon Hfw Hfc. destruct (on_node_wft p f Hfw s s' Hw Hon) as [W T]. split; [|exact T]. split; [exact W|].
+  destruct (on_node_nodes p f s s' Hon) as [tg [x' [rest [Hf [_ [P1 P2]]]]]].
+  rewrite (all_cs_nodes s) in Hnd, Hnew. rewrite (all_cs_nodes s').
+  assert (Q1 := Permutation_map fst P1). assert (Q2 := Permutation_map fst P2). rewrite map_app in Q1, Q2.
+  apply (Permutation_NoDup (Permutation_sym Q2)). pose proof (Permutation_NoDup Q1 Hnd) as Hnd'.
+  apply NoDup_app_inv in Hnd'. destruct Hnd' as [Ntg [Hr Hdis]].
+  assert (Hnew_tg : new_to t (all_cs tg)).
+  { intros y k Hy. apply Hnew. apply (Permutation_in _ (Permutation_sym Q1)). apply in_or_app. left. rewrite <- all_cs_nodes. exact Hy. }
+  rewrite <- all_cs_nodes in Ntg. destruct (Hfc tg x' Ntg Hnew_tg Hf) as [Nx Sx].
+  apply NoDup_app_intro; [rewrite <- all_cs_nodes; exact Nx|exact Hr|].
+  intros y Hy Hyr. rewrite <- all_cs_nodes in Hy. destruct (Sx y Hy) as [Hin|[k E]].
+  - rewrite all_cs_nodes in Hin. exact (Hdis y Hin Hyr).
+  - apply (Hnew y k); [|exact E]. apply (Permutation_in _ (Permutation_sym Q1)). apply in_or_app. right. exact Hyr.
+Qed.
+
+Definition canon_op (o : op) : Prop :=
+  match o with ODocPut _ _ _ v => canon v | ODocIns _ _ _ vs | ODocUpd _ _ _ vs => Forall canon vs | _ => True end.
+
+(* every remote operation that is new to the replica keeps the tree well-formed, its creation timestamps pairwise
+   distinct and the root as it was; the snapshot operation puts the initial document in its place *)
+Theorem doc_remote_keeps_structure s o :
+  SInv s -> new_to (opid_ts (op_id o)) (all_cs s) -> canon_op o ->
+  SInv (doc_remote s o) /\ (is_snap o = false -> jtomb (doc_remote s o) = jtomb s).
+Proof.
+  intros HI Hnew Hc. unfold doc_remote.
+  assert (Keep : SInv s /\ (is_snap o = false -> jtomb s = jtomb s)) by (split; [exact HI|reflexivity]).
+  destruct o as [i| | | | | | | |i p k v|i p k|i p target vs|i p targets|i p targets vs]; try exact Keep; cbn [op_id canon_op] in *.
+  - split; [|discriminate]. split; [split; [constructor|exact I]|repeat constructor; intros []].
+  - (* put *)
+    set (t := opid_ts i) in *. destruct (create t v 0) as [child i1] eqn:Ec.
+    assert (Ech : child = fst (create t v 0)) by (rewrite Ec; reflexivity).
+    destruct (on_node s p (fun j => obj_put j k child)) as [s'|] eqn:Hon; [|exact Keep].
+    destruct (on_node_SInv t p _ s s' HI Hnew Hon) as [K1 K2]; [| |split; [exact K1|intros _; exact K2]].
+    + intros tg x' Hw Hx. apply (put_remote_wft tg k child x' Hw); [rewrite Ech; apply create_wft, Hc|exact Hx].
+    + intros tg x' Hn Hnw Hx. rewrite Ech in Hx. exact (put_remote_cs t tg k v x' Hn Hnw Hx).
+  - (* remove *)
+    set (t := opid_ts i) in *.
+    destruct (on_node s p (fun j => obj_remove_remote j k t)) as [s'|] eqn:Hon; [|exact Keep].
+    destruct (on_node_SInv t p _ s s' HI Hnew Hon) as [K1 K2]; [| |split; [exact K1|intros _; exact K2]].
+    + intros tg x' Hw Hx. exact (remove_remote_wft tg k t x' Hw Hx).
+    + intros tg x' Hn _ Hx. exact (remove_remote_cs t tg k t x' Hn Hx).
+  - (* insert *)
+    set (t := opid_ts i) in *. destruct (create_many t vs 0) as [ns i1] eqn:Ec.
+    assert (Ens : ns = fst (create_many t vs 0)) by (rewrite Ec; reflexivity).
+    destruct (created_many_facts t vs Hc) as [F1 [F2 [F3 F4]]]. rewrite <- Ens in F1, F2, F3, F4.
+    assert (Live : Forall (fun n => jtomb n = false) ns).
+    { destruct (create_many_shape t vs 0) as [Hs _]. rewrite <- Ens in Hs. eapply Forall_impl; [|exact Hs].
+      intros n [x [ix [_ ->]]]. apply create_not_tomb. }
+    match goal with |- context [on_node s p ?f] => set (g := f) end.
+    destruct (on_node s p g) as [s'|] eqn:Hon; [|exact Keep].
+    destruct (on_node_SInv t p g s s' HI Hnew Hon) as [K1 K2]; [| |split; [exact K1|intros _; exact K2]].
+    + intros tg x' Hw. unfold g. destruct tg as [| |c d l sz]; try discriminate. destruct Hw as [Hs Hch].
+      destruct (ts_eqb target oldest_ts).
+      * intros [= <-]. split; [|reflexivity]. split; [rewrite (ains_many_len ns l Live); lia|].
+        exact (ledit_wl t l ns _ (ains_many_ledit t ns l) Hch F1).
+      * destruct (ains_at l target ns) as [l'|] eqn:Ea; [|discriminate]. intros [= <-]. split; [|reflexivity].
+        split; [rewrite (ains_at_len ns Live l target l' Ea); lia|exact (ledit_wl t l ns l' (ains_at_ledit t ns l target l' Ea) Hch F1)].
+    + intros tg x' Hn Hnw. unfold g. destruct tg as [| |c d l sz]; try discriminate.
+      assert (G : forall l', ledit t l ns l' -> cs_ok t (JA c d l sz) (JA c d l' (sz + Z.of_nat (length ns)))).
+      { intros l' He. destruct (ledit_cs t l ns l' He) as [dr P].
+        apply (array_remote_cs t c d l sz l' _ (flat_map all_cs ns) dr Hn Hnw F2); [|exact P].
+        intros y Hy. rewrite Ens in Hy. exact (created_many_cs_new t vs 0 y Hy). }
+      destruct (ts_eqb target oldest_ts).
+      * intros [= <-]. apply G, ains_many_ledit.
+      * destruct (ains_at l target ns) as [l'|] eqn:Ea; [|discriminate]. intros [= <-]. apply G. eapply ains_at_ledit; eauto.
+  - (* delete *)
+    set (t := opid_ts i) in *.
+    match goal with |- context [on_node s p ?f] => set (g := f) end.
+    destruct (on_node s p g) as [s'|] eqn:Hon; [|exact Keep].
+    destruct (on_node_SInv t p g s s' HI Hnew Hon) as [K1 K2]; [| |split; [exact K1|intros _; exact K2]].
+    + intros tg x' Hw. unfold g. destruct tg as [| |c d l sz]; try discriminate. destruct Hw as [Hs Hch].
+      destruct (adel_remote l sz targets t 0) as [l' sz'] eqn:Ea. intros [= <-].
+      destruct (adel_remote_wft t targets l sz 0 l' sz' Hs Hch Ea) as [A1 [A2 _]]. split; [split; assumption|reflexivity].
+    + intros tg x' Hn Hnw. unfold g. destruct tg as [| |c d l sz]; try discriminate.
+      destruct (adel_remote l sz targets t 0) as [l' sz'] eqn:Ea. intros [= <-]. unfold cs_ok. rewrite !all_cs_arr in *.
+      (* the creation timestamps do not change: any Wl/size premise is irrelevant here, so the list-level fact is re-derived *)
+      assert (Ecs : cs_of l' = cs_of l).
+      { clear -Ea. revert l sz l' sz' Ea. generalize 0. induction targets as [|tg tgs IH]; intros i0 l sz l' sz'; cbn [adel_remote]; [intros [= <- _]; reflexivity|].
+        assert (Eupd : forall f, (forall x, all_cs (f x) = all_cs x) -> cs_of (aupd_node l tg f) = cs_of l).
+        { intros f Hf. clear -Hf. induction l as [|[o x] l IHl]; [reflexivity|]. cbn [aupd_node fst snd]. destruct (ts_eqb o tg).
+          - rewrite !cs_of_cons. cbn [snd]. rewrite Hf. reflexivity.
+          - rewrite !cs_of_cons. cbn [snd]. rewrite IHl. reflexivity. }
+        destruct (afind l tg) as [x|]; [|apply IH].
+        destruct (negb (jtomb x)); [intros H; rewrite (IH _ _ _ _ _ H); apply Eupd; intros; apply all_cs_set_d|].
+        destruct (ts_lt (jtime x) (ts_at t i0)); [intros H; rewrite (IH _ _ _ _ _ H); apply Eupd; intros; apply all_cs_set_d|apply IH]. }
+      rewrite Ecs. split; [exact Hn|auto].
+  - (* update *)
+    set (t := opid_ts i) in *.
+    match goal with |- context [on_node s p ?f] => set (g := f) end.
+    destruct (on_node s p g) as [s'|] eqn:Hon; [|exact Keep].
+    destruct (on_node_SInv t p g s s' HI Hnew Hon) as [K1 K2]; [| |split; [exact K1|intros _; exact K2]].
+    + intros tg x' Hw. unfold g. destruct tg as [| |c d l sz]; try discriminate. destruct Hw as [Hs Hch]. intros [= <-].
+      destruct (aupd_remote_spec t targets vs l 0 Hch Hc) as [A1 [A2 _]]. split; [split; [rewrite A1; exact Hs|exact A2]|reflexivity].
+    + intros tg x' Hn Hnw. unfold g. destruct tg as [| |c d l sz]; try discriminate. intros [= <-].
+      assert (Wl_any : exists dr, Permutation (cs_of l ++ flat_map all_cs (upd_created t targets vs 0)) (cs_of (aupd_remote l targets vs t 0) ++ dr)).
+      { clear -Hc. revert vs l Hc. generalize 0. induction targets as [|tg tgs IH]; intros i0 vs l Hc; cbn [aupd_remote upd_created]; [exists []; reflexivity|].
+        destruct vs as [|v vs']; [exists []; reflexivity|]. inversion Hc as [|? ? Cv Cvs]; subst.
+        destruct (create t v i0) as [n i1]. cbn [flat_map].
+        assert (Skip : exists dr, Permutation (cs_of l ++ all_cs n ++ flat_map all_cs (upd_created t tgs vs' i1)) (cs_of (aupd_remote l tgs vs' t i1) ++ dr)).
+        { destruct (IH i1 vs' l Cvs) as [dr P]. exists (dr ++ all_cs n). eapply Permutation_trans; [apply perm_drop_tail|].
+          rewrite (app_assoc _ dr (all_cs n)). apply Permutation_app_tail. exact P. }
+        destruct (afind l tg) as [x|] eqn:Ef; [|exact Skip]. destruct (negb (jtomb x) && ts_lt (jtime x) (jc n)); [|exact Skip].
+        destruct (afind_split _ _ _ Ef) as [l1 [o [l2 [E1 E2]]]]. rewrite E2. destruct (IH i1 vs' (l1 ++ (o, n) :: l2) Cvs) as [dr P].
+        exists (dr ++ all_cs x). rewrite E1. unfold cs_of at 1. rewrite flat_map_app. cbn [flat_map snd].
+        eapply Permutation_trans; [apply perm_move_tail|]. rewrite (app_assoc _ dr (all_cs x)). apply Permutation_app_tail.
+        unfold cs_of in P at 1. rewrite flat_map_app in P. cbn [flat_map snd] in P. exact P. }
+      destruct Wl_any as [dr P].
+      apply (array_remote_cs t c d l sz _ sz (flat_map all_cs (upd_created t targets vs 0)) dr Hn Hnw); [| |exact P].
+      * rewrite upd_created_many. apply created_many_cs_nodup.
+      * intros y Hy. rewrite upd_created_many in Hy. exact (created_many_cs_new t _ 0 y Hy).
+Qed.
